@@ -358,12 +358,23 @@ func C13(c *wk.Ctx) {
 		}
 		if cs.Process {
 			// this process compiles the unit's cases first to last, a fresh child last to first
-			mine := c13Order(c, cs.Unit, perUnitC13, false)
-			other, err := c.Child("oracle", cs.Unit, "rev")
-			if err != nil {
-				c.Fatal("%v", err)
-			}
+			// statistical replay: several rounds of two fresh processes, one compiling the unit's cases first
+			// to last, one last to first (state such as a sync.Pool makes a single round inconclusive)
 			k := fmt.Sprintf("c%d", cs.Index)
+			var mine, other map[string]string
+			for round := 0; round < 8; round++ {
+				var err error
+				if mine, err = c.Child("oracle", cs.Unit, "fwd"); err != nil {
+					c.Fatal("%v", err)
+				}
+				if other, err = c.Child("oracle", cs.Unit, "rev"); err != nil {
+					c.Fatal("%v", err)
+				}
+				u.Evals += 2
+				if mine[k] != other[k] {
+					break
+				}
+			}
 			if mine[k] != other[k] {
 				b, _ := json.Marshal(&cs)
 				u.AddFail(&wk.Failure{Class: "unequal", Site: "process: the result of a compilation depends on what the process compiled before",
@@ -399,7 +410,7 @@ func C13(c *wk.Ctx) {
 	native := c.Extra == "native"
 	if c.Mode == "oracle" {
 		u := wk.NewUnit(c.Start)
-		for k, v := range c13Order(c, c.Start, perUnit, true) {
+		for k, v := range c13Order(c, c.Start, perUnit, c.Extra != "fwd") {
 			u.Observe(k, v)
 		}
 		c.Emit(u)
